@@ -970,6 +970,33 @@ func rule091assert(r *core.Run, ctx *oblig.Ctx, reach map[*ssa.Function]bool) {
 				want = cl.key
 			}
 			r.Check(at == want, "R09.1t", k, pos(r, ta), "asserts "+at+" on class "+cl.field, "asserts "+at+" but class "+cl.field+" holds "+want)
+			// a lookup that can miss hands back a nil interface: asserting it panics, so the assertion
+			// must sit on the side where the lookup reported 'found' (or the value was tested non-nil)
+			pn := p.CalleeName(prod)
+			if (strings.HasSuffix(pn, ".Get") || strings.HasSuffix(pn, ".Delete")) && prod.Value() != nil && prod.Value().Type() != nil {
+				if tup, ok := prod.Value().Type().(*types.Tuple); ok && tup.Len() == 2 {
+					found := false
+					for _, ec := range expandedConds(ta) {
+						cd := core.CondOf(ec.cond)
+						val := ec.truth != cd.Neg
+						if ex, ok := cd.X.(*ssa.Extract); ok && ex.Tuple == prod.Value() && ex.Index == 1 && (cd.Op == 0 || cd.Op == token.ILLEGAL) && val {
+							found = true
+						}
+						// value != nil
+						if (cd.Op == token.NEQ || cd.Op == token.EQL) && (core.IsNilConst(cd.X) || core.IsNilConst(cd.Y)) {
+							other := cd.X
+							if core.IsNilConst(cd.X) {
+								other = cd.Y
+							}
+							if other == ta.X && (ec.truth != cd.Neg) == (cd.Op == token.NEQ) {
+								found = true
+							}
+						}
+					}
+					r.Check(found, "R09.1t", key(fname(r, f), "assert "+at+" only after a successful lookup", sprintf("#%d", n)), pos(r, ta), "guarded by the lookup's ok / a non-nil test",
+						"the result of "+pn+" is asserted to "+at+" on a path where the lookup may have missed: a nil interface is asserted and the request panics")
+				}
+			}
 		})
 	}
 	r.Floor("R09.1t", 20, "assertions + class operations")
